@@ -277,7 +277,7 @@ func lenDelimEnd(p []byte, o int) int { return o + varintLen(p, o) + int(varintV
 
 // maxLen: no buffer is larger than this (amd64 allocation limit); keeps the sums below
 // free of overflow.
-const maxLen = 1 << 48
+const maxLen = 1 << 47
 
 // lenDelimOK: a length prefix is present and the declared payload lies inside p.
 func lenDelimOK(p []byte, o int) bool {
@@ -379,4 +379,31 @@ func fieldTruncated(p []byte, fs int) bool {
 		return ps+4 > len(p)
 	}
 	return false
+}
+
+// ---- abstract messages (C19, C04..): a message handed to the codec is known only through
+// its interfaces.  Its encoded size and bytes are uninterpreted functions of the message
+// identity (the message is assumed not to be mutated during a codec call), and a ghost
+// record per message logs what its Unmarshal method was given.
+
+type gocvMsgGhost struct {
+	calls   int   // number of Unmarshal-family calls on this message so far
+	inRef   int   // identity of the slice the last call received ...
+	inOff   int   // ... its offset in that array
+	inLen   int   // ... and its length
+	lastErr error // what the last call returned
+}
+
+var gocvGhostDummy gocvMsgGhost
+
+func gocv_ghostOf(m any) *gocvMsgGhost { return &gocvGhostDummy }
+func gocv_msgSize(m any) int           { return 0 }
+func gocv_msgByte(m any, i int) byte   { return 0 }
+func gocv_sliceRef(b []byte) int       { return 0 }
+func gocv_sliceOff(b []byte) int       { return 0 }
+
+// gotInput: the message's last Unmarshal call received exactly the window p[lo:hi].
+func gotInput(m any, p []byte, lo, hi int) bool {
+	g := gocv_ghostOf(m)
+	return g.inRef == gocv_sliceRef(p) && g.inOff == gocv_sliceOff(p)+lo && g.inLen == hi-lo
 }
